@@ -867,19 +867,20 @@ func BetweenExpr(query *Query, current Map, expr *sqlparser.BetweenExpr, opts ..
 	if err != nil {
 		return false, err
 	}
-	pointValue := fmt.Sprintf("%v", pointValueRaw)
-	fromValue := fmt.Sprintf("%v", from)
-	toValue := fmt.Sprintf("%v", to)
-	switch expr.IsBetween {
-	case true:
-		{
-			return (pointValue > fromValue) && (pointValue < toValue), nil
-		}
-	default:
-		{
-			return !((pointValue > fromValue) && (pointValue < toValue)), nil
-		}
+	fromValue, err := ValueOf(query, current, from)
+	if err != nil {
+		return false, err
 	}
+	toValue, err := ValueOf(query, current, to)
+	if err != nil {
+		return false, err
+	}
+	// inclusive on both ends, in the value order used by the comparison operators
+	between := compare.Compare(pointValueRaw, fromValue) >= 0 && compare.Compare(pointValueRaw, toValue) <= 0
+	if expr.IsBetween {
+		return between, nil
+	}
+	return !between, nil
 }
 
 func BinaryExpr(query *Query, current Map, expr *sqlparser.BinaryExpr, opts ...ExprOption) (*float64, error) {
